@@ -31,6 +31,8 @@ bool mode_supports_window(int mode);
 
 /// apply a configuration through the public setters (not initialised)
 void apply_cfg(bxdecay0::decay0_generator & g, const GenCfg & c);
+/// same, but the post-generation operation is the caller-owned object `op` (possibly shared between generators)
+void apply_cfg(bxdecay0::decay0_generator & g, const GenCfg & c, const std::shared_ptr<bxdecay0::i_event_op> & op);
 std::shared_ptr<bxdecay0::i_event_op> make_mdl(int preset);
 int mdl_presets();
 
